@@ -1966,7 +1966,7 @@ SDwritedata(int32  sdsid,  /* IN: dataset ID */
     /* Check if this data is being written out to a newly created dataset */
     var = SDIget_var(handle, sdsid);
 
-    if (var->created) {
+    if (var->created || var->data_ref == 0) { /* (also a dataset of an earlier session that has no data yet) */
         if (!IS_RECVAR(var) && (handle->flags & NC_NOFILL)) {
             var->set_length = TRUE;
         } /* end if */
